@@ -322,6 +322,9 @@ class BuiltinMixin(CallMixin):
                 if isinstance(v, Ref) and META[v.oid].kind == "generator":
                     self.oblige(st, smt.L(s) == 0, "model", line, "join-on-empty-separator")
                     return [(s2, r if isinstance(r, Raise) else smt.flat_app(r)) for s2, r in self.drain_producer(st, ctx, v, line)]
+                if isinstance(v, Ref) and META[v.oid].kind == "object" and "items" in st.heap[v.oid] and is_z3(st.heap[v.oid]["items"]) \
+                        and st.heap[v.oid]["items"].sort() == smt.BytesSeq:
+                    v = st.heap[v.oid]["items"]  # a deque model (stubs/transports.py): the sequence of its buffers
                 if is_z3(v) and v.sort() == smt.BytesSeq:
                     # only b"".join is modelled exactly
                     self.oblige(st, smt.L(s) == 0, "model", line, "join-on-empty-separator")
